@@ -15,6 +15,7 @@ then the program without the rejected declarations, plus one call per alias, is 
 import json
 import os
 import random
+import re
 import subprocess
 import threading
 
@@ -674,8 +675,85 @@ def part2(chk, tier, sc):
     return len(scenarios)
 
 
+def generic_context_programs():
+    """aliases inside the bodies of generic instantiations: every instantiation is parsed with a COPY of the alias trie of the calling
+    context plus the aliases of the generic's module. An alias of the calling module must stay callable - before and after the body
+    calls (and thereby instantiates) a generic function of another module that has an alias with the same words which the caller
+    cannot see (private, or public but not selected by the import). Each function returns its own number; expected output follows
+    from visibility alone. -> [(name, files, expected stdout)]"""
+    out = []
+    for vis in ("private", "public-not-selected"):
+        for key in ("same", "longer"):
+            for use in ("generic-body", "nested-generic-body", "plain-function-after"):
+                for ntypes in (1, 2):
+                    pub = "öffentliche " if vis == "public-not-selected" else ""
+                    b_alias = '"hilf <x>"' if key == "same" else '"hilf <x> weiter"'
+                    b = ('Die %sFunktion Hilf_B mit dem Parameter x vom Typ Zahl, gibt eine Zahl zurück, macht:\n\tGib x plus 1000 zurück.\nUnd kann so benutzt werden:\n\t%s\n\n'
+                         'Die öffentliche generische Funktion Innen mit dem Parameter a vom Typ T, gibt ein T zurück, macht:\n\tGib a zurück.\nUnd kann so benutzt werden:\n\t"innen <a>"\n') % (pub, b_alias)
+                    head = ('Binde "Duden/Ausgabe" ein.\nBinde Innen aus "b" ein.\n'
+                            'Die Funktion Hilf_Main mit dem Parameter x vom Typ Zahl, gibt eine Zahl zurück, macht:\n\tGib x plus 1 zurück.\nUnd kann so benutzt werden:\n\t"hilf <x>"\n')
+                    if key == "longer":
+                        head += 'Die Zahl weiter ist 0.\n'
+                    aussen = ('Die generische Funktion Aussen mit dem Parameter a vom Typ T, gibt eine Zahl zurück, macht:\n\tDie Zahl vorher ist hilf 1.\n\tDas T b ist innen a.\n'
+                              '\tDie Zahl nachher ist hilf 1.\n\tGib vorher mal 10000 plus nachher zurück.\nUnd kann so benutzt werden:\n\t"aussen <a>"\n')
+                    main = head + aussen
+                    exp = ["2"]
+                    main += "Schreibe (hilf 1) auf eine Zeile.\n"
+                    if use == "nested-generic-body":
+                        main += ('Die generische Funktion Ganz_Aussen mit dem Parameter a vom Typ T, gibt eine Zahl zurück, macht:\n\tDie Zahl erst ist aussen a.\n\tGib erst plus (hilf 1) mal 100000000 zurück.\n'
+                                 'Und kann so benutzt werden:\n\t"ganz aussen <a>"\n')
+                        for arg in (["5", '"x"'][:ntypes]):
+                            main += "Schreibe (ganz aussen %s) auf eine Zeile.\n" % arg
+                            exp.append(str(20002 + 2 * 100000000))
+                    else:
+                        for arg in (["5", '"x"'][:ntypes]):
+                            main += "Schreibe (aussen %s) auf eine Zeile.\n" % arg
+                            exp.append("20002")
+                    if use == "plain-function-after":
+                        main += 'Die Funktion Danach gibt eine Zahl zurück, macht:\n\tGib hilf 1 zurück.\nUnd kann so benutzt werden:\n\t"danach"\nSchreibe danach auf eine Zeile.\n'
+                        exp.append("2")
+                    main += "Schreibe (hilf 1) auf eine Zeile.\n"
+                    exp.append("2")
+                    out.append(("%s/%s/%s/%d" % (vis, key, use, ntypes), {"main.ddp": main, "b.ddp": b}, "\n".join(exp) + "\n"))
+    return out
+
+
+def part3(chk, sc):
+    cases = generic_context_programs()
+
+    def job(k):
+        name, files, exp = cases[k]
+        d = os.path.join(sc.path, "gc%d" % k)
+        for rel, content in files.items():
+            vlib.write_file(os.path.join(d, rel), content)
+        exe = os.path.join(d, "out")
+        c = vlib.kddp_compile(os.path.join(d, "main.ddp"), exe)
+        if c.timed_out:
+            return name, files, exp, None
+        if c.rc != 0 or not os.path.exists(exe):
+            return name, files, exp, ("rejected", (c.err or c.out)[-1500:])
+        r = vlib.run_exe(exe)
+        return name, files, exp, (None if r.timed_out else ("ran", r.out))
+    for name, files, exp, res in vlib.pmap(job, range(len(cases))):
+        chk.evaluations += 1
+        chk.distinct.add("generic-context:" + name)
+        if res is None:
+            chk.inconclusive += 1
+            continue
+        chk.count("generic_context_programs")
+        vis, key, use, _ = name.split("/")
+        if res[0] == "rejected":
+            first = re.sub(r"/\S*/", "", next((l for l in res[1].split("\n") if "Fehler" in l), ""))[:100]
+            chk.violation({"level": "program", "scenario": "generic-context", "cause": "declared alias not callable (program rejected)", "foreign_alias": vis, "key": key, "use": use, "error": re.sub(r"\d+", "N", first)},
+                          files=dict(files, **{"kddp_output.txt": res[1]}), text="%s: kddp rejects the program" % name)
+        elif res[1] != exp:
+            chk.violation({"level": "program", "scenario": "generic-context", "cause": "alias of the calling module replaced inside a generic body", "foreign_alias": vis, "key": key, "use": use},
+                          files=dict(files, **{"expected.txt": exp, "stdout.txt": res[1]}), text="%s: expected %r got %r" % (name, exp, res[1]))
+    return len(cases)
+
+
 def run(tier):
-    vlib.ensure_build(frontend_only=True)
+    vlib.ensure_build(asan=False)
     chk = Check(PID, tier)
     maxlen, usize, nrand = part1(chk, tier)
     with Scratch("c20") as sc:
@@ -683,11 +761,13 @@ def run(tier):
             nprog = part2(chk, tier, sc)
         finally:
             close_probes()
+        part3(chk, sc)
     chk.rule = ("history level: every insertion order of at most %d keys out of each of 12 universes of %d keys (exhaustive; prefix structure, primitive placeholders, value vs Referenz, "
                 "alias vs target, two placeholders, literals, 2/3/4 look-alike Kombinationen, look-alike definitions, look-alike lists, look-alikes below a shared prefix) + %d seeded random "
                 "histories of at most 12 keys with declare / insert-again / copy / call operations (+ random Set/Get/Delete histories on the ordered map itself); after every operation Contains is compared with the model for every key of the universe, "
                 "Search(enumerate) and one simulated call per stored alias. Program level: %d programs (3 declaration/import orders per population; single file, modules without and with "
-                "look-alike types), each parsed twice (declarations; declarations without the duplicates + one call per alias)." % (maxlen, usize, nrand, nprog))
+                "look-alike types), each parsed twice (declarations; declarations without the duplicates + one call per alias); 24 compiled and run generic-context programs (an alias of the calling module "
+                "used inside generic bodies before and after a nested instantiation from a module with an invisible alias of the same words)." % (maxlen, usize, nrand, nprog))
     chk.extra.update({"exhaustive": True, "exhaustive_scope": "insertion orders of the stated length over the stated key universes"})
     chk.assumptions = [
         "two aliases of one and the same declaration never coincide (the parser checks the aliases of a declaration before inserting any of them; the property speaks of aliases already in scope)",
@@ -711,6 +791,20 @@ def replay(path):
         if hit:
             print("VIOLATION property=%s replay=%s" % (PID, path))
         return 1 if hit else 0
+    if sig.get("scenario") == "generic-context":
+        vlib.ensure_build(asan=False)
+        with Scratch("c20r") as sc:
+            d = sc.sub("r")
+            for fn in os.listdir(path):
+                if fn.endswith(".ddp"):
+                    vlib.write_file(os.path.join(d, fn), open(os.path.join(path, fn), encoding="utf-8").read())
+            exe = os.path.join(d, "out")
+            c = vlib.kddp_compile(os.path.join(d, "main.ddp"), exe)
+            expf = os.path.join(path, "expected.txt")
+            bad = c.rc != 0 or (os.path.exists(expf) and vlib.run_exe(exe).out != open(expf).read())
+        if bad:
+            print("VIOLATION property=%s replay=%s" % (PID, path))
+        return 1 if bad else 0
     # program level: parse the stored files again and compare with the stored expectation
     with Scratch("c20r") as sc:
         d = sc.sub("r")
